@@ -19,6 +19,8 @@
    The handle of a handler subscription is a handle of the core (operations RECV / DROP of BrokerRun.v).
     60 SPROV   p n sig*                                 -> [0 handle] | [1 status]   (OpenProviderStream: ProvideActuationRequest)
     61 SPUB    p h n (id vflag [value])*                -> [0 nerr (id code)*]       (PublishValuesRequest on the stream of provider h, opened by p)
+    62 V1STR   p n (updates as in V1SET)                -> [0 nerr (k code)*]        (one StreamedUpdateRequest on the stream principal p keeps open)
+    63 SDVSTR  p n (id vflag [value])*                  -> [0 nerr (id code)*]       (one StreamDatapointsRequest on the stream principal p keeps open)
 
    sig ::= 0 (signal_id absent) | 1 (oneof unset) | 2 path | 3 id ;  xflag 0 = field absent.
    The state effect of a handler is that of the core operations it issues (api_core). *)
@@ -44,7 +46,9 @@ Inductive api_op :=
 | V1Sub (p : Z) (l : list (list Z * fields))
 | V2Sub (p : Z) (buf : Z) (l : list sig_ref)
 | SProv (p : Z) (l : list sig_ref)
-| SPub (p : Z) (h : Z) (l : list (Z * option value)).
+| SPub (p : Z) (h : Z) (l : list (Z * option value))
+| V1Str (p : Z) (l : list v1_update)
+| SdvStr (p : Z) (l : list (Z * option value)).
 
 (* ---------- decoding ---------- *)
 Definition dec_sig (ts : list Z) : option (sig_ref * list Z) :=
@@ -217,6 +221,8 @@ Definition decode_api (l : list Z) : option api_op :=
   | 34 :: p :: buf :: n :: r => option_map (V2Sub p buf) (dec_sigs (Z.to_nat n) r)
   | 60 :: p :: n :: r => option_map (SProv p) (dec_sigs (Z.to_nat n) r)
   | 61 :: p :: h :: n :: r => option_map (SPub p h) (dec_id_values (Z.to_nat n) r)
+  | 62 :: p :: n :: r => option_map (V1Str p) (dec_v1_updates (Z.to_nat n) r)
+  | 63 :: p :: n :: r => option_map (SdvStr p) (dec_id_values (Z.to_nat n) r)
   | _ => None
   end.
 
@@ -247,6 +253,8 @@ Definition api_run (st : state) (a : api_op) : state * reply :=
     (st', RStatus (match r with inl _ => OK | inr c => c end))
   | SPub p _ l =>
     let '(st', errs) := v2_stream_publish st (get_perm st p) l in (st', RErrors errs)
+  | V1Str p l => v1_stream_msg st (get_perm st p) l
+  | SdvStr p l => sdv_stream_msg st (get_perm st p) l
   end.
 
 (* the core operations a handler issues (its only effect on the state) *)
@@ -303,6 +311,8 @@ Definition api_core (st : state) (a : api_op) : list aop :=
                  | None => []
                  end
   | SPub p _ l => [AUpdate p (stream_updates l)]
+  | V1Str p l => [AUpdate p (fst (v1_stream_resolve (st_db st) l [] [] 0))]
+  | SdvStr p l => [AUpdate p (map (fun '(id, w) => (id, dp_upd (from_wire w))) l)]
   | _ => []
   end.
 
